@@ -327,6 +327,11 @@ Definition failed_C16_mux (b : builder) (ops : list op) (cls : list rclass) (fil
                       | None => false end) ++
             clause 6 (match strict_visual_entry (b_payload (tr_entry vt)) with
                       | Some (ew, eh) => (ew =? w) && (eh =? hh) | None => true end) ++
+            (* parameter-set (and configuration-record) lengths and contents: the record decodes strictly to
+               the configuration of the first accepted key frame (same test as C07's video part) *)
+            clause 7 (match first_key_of h with
+                      | Some d => check_video_entry (cfg_codec b) w hh (Some d) (tr_entry vt)
+                      | None => true end) ++
             clause 8 (match cfg_audio b, track_of HS trs with
                       | Some a, Some at_ =>
                           match strict_audio_entry (b_payload (tr_entry at_)) with
